@@ -353,9 +353,20 @@ structure OutPrims where
   /-- the sequence of `w.Write` calls that `writeObject(w, value)` makes (`Liquid/Std.lean`) -/
   chunks : GoVal → Res Cause (List Bytes)
 
+/-- `tw.WriteVerbatim(b)` (`render/trimwriter.go`, repair `fixes/verbatim-output-not-trimmed`):
+    `tw.trim = false; tw.Write(b); tw.Flush()` — output that is not literal text of the template
+    (the value of an object, the body of a raw block). In terms of the other operations it is
+    `Write ""` (drops a pending right trim without applying it and flushes the text pending
+    before), `Write b` (flag clear, buffer empty: no call, `b` buffered unchanged), `Flush`
+    (`b` goes out at once, one call unless `b` is empty, so a later `TrimLeft` finds nothing of it);
+    the underlying calls and the failure points are those of the Go method. -/
+def writeVerbatimM (b : Bytes) : M Unit := do writeM []; writeM b; flushM
+
+/-- the `Write` calls of `writeObject` / of a raw node on `verbatimWriter{w}`: one `WriteVerbatim`
+    per chunk (none for nil or an empty array: then a pending right trim stays pending) -/
 def writeAllM : List Bytes → M Unit
   | [] => pure ()
-  | c :: cs => do writeM c; writeAllM cs
+  | c :: cs => do writeVerbatimM c; writeAllM cs
 
 /-! ## Loops -/
 
